@@ -155,14 +155,12 @@ func Apply(ctx context.Context, rc *regclient.RegClient, rSrc ref.Ref, opts ...O
 				if dl.mod == deleted {
 					return dl, nil
 				}
-				scanOnly := false
 				if rdr == nil {
 					bRdr, err := rc.BlobGet(ctx, rSrc, dl.desc)
 					if err != nil {
 						return nil, err
 					}
 					rdr = bRdr
-					scanOnly = true
 				}
 				changed := false
 				empty := true
@@ -306,11 +304,12 @@ func Apply(ctx context.Context, rc *regclient.RegClient, rSrc ref.Ref, opts ...O
 					if dl.mod == unchanged {
 						dl.mod = replaced
 					}
-				} else if scanOnly {
-					// the reader was only opened to scan the files and is now consumed, there is no new content to push
-					_ = rdr.Close()
-					rdr = nil
 				}
+			}
+			// an added layer that no step changed is already pushed, the reader was only opened for the steps to inspect it
+			if dl.mod == added && dl.newDesc.MediaType == "" && rdr != nil {
+				_ = rdr.Close()
+				rdr = nil
 			}
 			// if added or replaced, and reader not nil, push blob
 			if (dl.mod == added || dl.mod == replaced) && rdr != nil {
